@@ -216,6 +216,25 @@ def header_bytes(b: bytes, pos: int, titan: bool) -> bool:
     return V(True)
 
 
+def flood_without_crlf(n: int, c: int, titan: bool, kind: int) -> bool:
+    """
+    pre: 0 <= n <= CAP + 5000 and 0 <= c <= n and 0 <= kind <= 1
+    post: _
+    """
+    # a server that streams bytes without ever finishing the header line is cut off at the cap as well
+    r = ProtoRun(titan)
+    stream = mk(Fill(n)) if kind == 0 else mk(b"20 text/gemini", Fill(n))
+    r.feed(stream, [c])
+    if len(stream) > CAP:
+        o = r.outcome()
+        return V(o[0] == "error" and r.t.closed >= 1)
+    o = r.outcome()
+    if o[0] != "pending":
+        return V(False)                  # nothing to decide yet: still waiting for the header
+    r.close_clean()
+    return V(r.outcome()[0] == "error")
+
+
 def size_cap(n: int, c: int, titan: bool) -> bool:
     """
     pre: 0 <= n <= CAP + 5000
@@ -350,6 +369,9 @@ OBLIGATIONS = [
        symbolic="GeminiClient.get / upload / delete on the virtual-time loop: body length 0..2000, offset at which the server stops, "
                 "then clean close / reset / silence until the timeout",
        functions=["GeminiClient.get", "_get_single", "upload", "delete"] + FN, stubs=ST + ["MiniLoop (virtual clock)", "scripted connector"]),
+    Ob("flood_without_crlf", flood_without_crlf, quick=200, thorough=600,
+       symbolic="0..cap+5000 bytes without any CRLF (bare filler, or after '20 text/gemini'), one cut offset, both protocol classes",
+       functions=FN, stubs=ST),
     Ob("size_cap", size_cap, quick=120, thorough=600,
        symbolic="body length 0..cap+5000 (cap = 10 MiB), one cut offset", functions=FN, stubs=ST),
 ]
